@@ -52,6 +52,21 @@ func c12gen(tier string) []Spec {
 		sp := wspec("W65281 C", wc, 1, 1, faultio.Fault{}, "c12")
 		sp.BudgetS = 240
 		specs = append(specs, sp)
+		// three full blocks through Write alone (a compressor is re-used while earlier blocks are
+		// still on their way to the device), stored (level 0) to keep executions cheap
+		if wc <= 2 {
+			sp = wspec("W65280 W65280 W65280 C", wc, 0, bound, faultio.Fault{}, "c12")
+			sp.BudgetS = 240
+			specs = append(specs, sp)
+			// the same without state caching: the happens-before key cannot tell apart two orders
+			// of unsynchronised accesses (e.g. a buffer re-used while the device still reads it)
+			sp.NoCache = true
+			sp.Bound = bound - 1
+			specs = append(specs, sp)
+		}
+		// one incompressible full block: the member is larger than any internal copy buffer
+		sp = Spec{Kind: "writer", Params: params(wParams{Script: parseScript("W65280 C"), WC: wc, Level: 1, Oracle: "c12", Rand: true}), Bound: 1, BudgetS: 240}
+		specs = append(specs, sp)
 		// one-shot write failure at call k: nothing may follow the failed block
 		for k := 1; k <= 3; k++ {
 			sp := wspec("W1 F W1 F W1 F C", wc, 1, bound, faultio.Fault{At: k, Once: true}, "c12")
